@@ -41,6 +41,7 @@ class Sut:
         self.alive = True      # twin mode: False once this twin rejected an op the other accepted
         self.last_exc = None
         self.held = {}         # handles kept by the program across operations (op 'hold')
+        self.held_nodes = {}   # the model nodes of elements grabbed by op 'grab'
 
     # ---- construction ----
     def make_root(self, spec):
@@ -274,6 +275,22 @@ class Sut:
                 if cur is None:
                     raise NavError('no child %s' % attr)
             self.held[op['reg']] = cur
+            return None
+        if k == 'grab':
+            e = self.nav(ri, op['p'])
+            if e.__class__.__name__ == 'ElementProxy':
+                raise NavError('no element at that path')
+            self.held[op['reg']] = e
+            return None
+        if k == 'attach_held':
+            h = self.held.get(op['reg'])
+            P = self.nav(ri, op['p'])
+            if h is None or h.__class__.__name__ == 'ElementProxy' or P.__class__.__name__ == 'ElementProxy':
+                raise NavError('nothing to attach')
+            if op.get('via') == 'parent_attr':
+                h.parent = P
+            else:
+                P.add(h)
             return None
         if k == 'held_value':
             h = self.held.get(op['reg'])
@@ -679,6 +696,22 @@ class HistoryWorld:
                 return 'lost'
             t, key, r = mpath[-1]
             EM.op_del(parent, t, key, r)
+            return done()
+        if k == 'grab':
+            sut.held_nodes[op['reg']] = EM.resolve(root, mpath)
+            return (0, 0)
+        if k == 'attach_held':
+            node = sut.held_nodes.get(op['reg'])
+            parent = EM.resolve(root, mpath)
+            if node is None or parent is None:
+                return 'lost'
+            if any(k_ is node for k_ in parent.kids):
+                return done()              # already a child: no-op
+            # (an element has one parent: if it is still listed elsewhere in this root it moves)
+            for n_ in root.all_nodes():
+                if any(k_ is node for k_ in n_.kids):
+                    n_.kids = [k_ for k_ in n_.kids if k_ is not node]
+            parent.kids.append(node)
             return done()
         if k in ('read', 'validate', 'mkroot', 'hold', 'selfassign'):
             return (0, 0)
